@@ -216,12 +216,18 @@ class CategoricalData:
             values = [self.unique_values[index] for index in indices]
         except TypeError:
             return self.unique_values[indices]
-        if not values:
-            all_possible_values = np.array(self.unique_values)
-            dtype = all_possible_values.dtype
-            shape = all_possible_values.shape
-            return np.empty((0,) + shape[1:], dtype)
-        return np.array(values)
+        try:
+            if not values:
+                all_possible_values = np.array(self.unique_values)
+                dtype = all_possible_values.dtype
+                shape = all_possible_values.shape
+                return np.empty((0,) + shape[1:], dtype)
+            return np.array(values)
+        except ValueError:
+            ragged = np.empty(len(values), dtype=object)
+            for n, value in enumerate(values):
+                ragged[n] = value
+            return ragged
 
     def __len__(self):
         return len(self.indices)
